@@ -115,6 +115,16 @@ pub fn max_steps(tier: &str) -> usize {
     }
 }
 
+/// Step budget of a case: the tier's budget plus an allowance per record, so that
+/// the rare "many tiny records" workloads (which exist to cross the 1 000- and
+/// 10 000-record thresholds in the code) are not mistaken for livelocks.
+pub fn steps_for(case: &Case) -> usize {
+    let recs: usize = case.records.len() + case.extra.iter().map(|e| e.records.len()).sum::<usize>();
+    let bases: usize = case.records.iter().map(|r| r.seq.len()).sum::<usize>()
+        + case.extra.iter().flat_map(|e| e.records.iter()).map(|r| r.seq.len()).sum::<usize>();
+    max_steps(&case.tier) + 400 * recs + 8 * bases
+}
+
 /// Run `f` inside one simulated execution; a panic of `f` itself is returned as
 /// `Ok(Err(text))` (the pipeline panicked), a failure of the execution as a whole
 /// (deadlock, step budget) as `Err(text)`.
